@@ -90,6 +90,7 @@ def scan(text, secrets):
         return hits
     low = text.lower()
     norm = _SEP.sub(b'', low)
+    cs = None
     # hex dumps with an address / label prefix per line are covered by the separator-free normal form only when the
     # bytes of one window sit on one line; windows are short (8 bytes) so that is the common case
     for name, sec in secrets:
@@ -103,6 +104,20 @@ def scan(text, secrets):
                 found = 'hex'
             if found:
                 break
+        if not found and len(sec) >= 16:
+            # base64 (PEM bodies, any of the three alignments; case matters, line breaks do not)
+            import base64
+            if cs is None:
+                cs = _SEP.sub(b'', text)
+            for o in range(3):
+                part = sec[o:]
+                enc = base64.b64encode(part[:len(part) // 3 * 3])
+                for i in range(0, len(enc) - 15, 4):
+                    if enc[i:i + 16] in cs:
+                        found = 'base64'
+                        break
+                if found:
+                    break
         if found:
             hits.append((name, found))
     return hits
@@ -202,6 +217,12 @@ def worker_init(ctx):
     hits = scan(cap.stdout, [('private', R.i2b(d))])
     assert hits, 'scanner self-test failed: printed private key not found in the capture'
     assert not scan(cap.stdout, [('other', R.i2b(d ^ ((1 << 256) - 1)))]), 'scanner self-test: false hit'
+    cap = Capture(ctx)
+    with cap:
+        ctx.lib.sm2_private_key_to_pem(key, ctx.shim.vf_stdout())
+        ctx.shim.vf_fflush_all()
+    assert ('private', 'base64') in scan(cap.stdout, [('private', R.i2b(d))]), 'scanner self-test failed: PEM body of a private key not recognised'
+    assert not scan(cap.stdout, [('other', R.i2b(d ^ ((1 << 256) - 1)))]), 'scanner self-test: false base64 hit'
     key.free()
 
 
@@ -825,6 +846,39 @@ def u_import(ctx, u):
         results[('pkcs8-open', name)] = r
         judge(ctx, cap, [('private', R.i2b(d)), ('private_le', U.limbs(d)), ('password', pw)], 'import:pkcs8-open', name)
         ctx.stat('import_' + ('accepted' if r == 1 else 'refused'))
+    # format probing: an application that does not know which kind of PEM object a stream holds tries one reader after the
+    # other on the same stream (no rewind on a pipe), or reads the objects of a bundle in a loop; the streams hold unencrypted
+    # private keys, so whatever a reader says about lines it did not expect must not be the key
+    import base64
+
+    def pem(label, der):
+        b64 = base64.b64encode(der).decode()
+        return '-----BEGIN %s-----\n' % label + '\n'.join(b64[i:i + 64] for i in range(0, len(b64), 64)) + '\n-----END %s-----\n' % label
+    spki = export(lib.sm2_public_key_info_to_der)
+    readers = {'ec': lib.sm2_private_key_from_pem, 'p8': lib.sm2_private_key_info_from_pem, 'pub': lib.sm2_public_key_info_from_pem}
+    streams = [('ec-key', pem('EC PRIVATE KEY', ec)), ('p8-key', pem('PRIVATE KEY', pki)),
+               ('bundle-p8-then-public', pem('PRIVATE KEY', pki) + pem('PUBLIC KEY', spki or b'')),
+               ('bundle-ec-then-p8', pem('EC PRIVATE KEY', ec) + pem('PRIVATE KEY', pki))]
+    orders = [('p8', 'ec', 'pub'), ('pub', 'pub', 'pub', 'pub', 'pub', 'pub', 'pub'), ('ec', 'p8', 'p8', 'p8'), ('pub', 'ec', 'p8', 'ec', 'p8', 'ec', 'p8')]
+    for sname, text in streams:
+        for order in orders:
+            path = os.path.join(ctx.tmp, 'probe19.pem')
+            with open(path, 'w') as f:
+                f.write(text)
+            cap = Capture(ctx)
+            rets = []
+            with cap:
+                ctx.begin(['import', 'pem-probing', sname, order])
+                fp = ctx.shim.vf_fopen(path.encode(), b'r')
+                for rd in order:
+                    k2 = ctx.buf(L['sizeof_SM2_KEY'], fill=0)
+                    rets.append(readers[rd](k2, fp))
+                    k2.free()
+                ctx.shim.vf_fclose(fp)
+                ctx.shim.vf_fflush_all()
+            judge(ctx, cap, [('private', R.i2b(d)), ('private_le', U.limbs(d)), ('private_key_der', ec)], 'import:pem-probing', sname)
+            ctx.stat('pem_probing_sequences')
+            ctx.stat('pem_probing_reads_%s' % ('some-succeeded' if 1 in rets else 'all-refused'))
     ok = all(results[(k, 'consistent')] == 1 for k in ('ec-private-key', 'private-key-info', 'private-key-info-pem', 'pkcs8-open'))
     ctx.check(ok, 'harness:consistent-key-import-failed', results={'%s/%s' % k: v for k, v in results.items() if k[1] == 'consistent'})
     ctx.check(results[('ec-private-key', 'foreign-public-key')] != 1 and results[('pkcs8-open', 'foreign-public-key')] != 1,
